@@ -235,9 +235,12 @@ def main(argv):
                     if tok.endswith(".reset"):
                         case = []; in_case = True
                     if in_case:
-                        case.append(la)
-                    ctx_lines = list(case) if in_case else [la]
+                        # the context kept for a replay is the tail of the case (long cases are not copied per line)
+                        case.append(la if len(la) <= 4000 else la[:4000] + "...")
+                        if len(case) > 92:
+                            del case[12:len(case) - 80]      # keep the head of the case (reset / preload lines) and its tail
                     if model != impl:
+                        ctx_lines = list(case) if in_case else [la]
                         if len(disagree) < 50:
                             disagree.append({"op": op[:2000], "impl": impl[:2000], "model": model[:2000], "case": [c[:600] for c in ctx_lines[-40:]]})
                         else:
@@ -246,10 +249,11 @@ def main(argv):
                         n_spec_eval += 1
                         m = re.match(r"checked=(\d+)", extra)
                         if verdict.startswith("ok") and (not m or int(m.group(1)) > 0):
-                            nontrivial.add(hashlib.sha1(("\n".join(ctx_lines)).encode()).hexdigest())
+                            nontrivial.add(hashlib.sha1((str(n_lines) + "\n" + la[:4000]).encode()).hexdigest())
                         if m:
                             checked_extra += int(m.group(1))
                         if verdict.startswith("fail"):
+                            ctx_lines = list(case) if in_case else [la]
                             spec_fail.append({"clause": verdict, "op": op[:2000], "impl": impl[:2000], "case": [c[:600] for c in ctx_lines[-60:]]})
                     if tok.endswith(".end"):
                         in_case = False; case = []
